@@ -28,6 +28,8 @@ struct PeerPlan {
     choke_first: bool,
     /// a leecher: declares interest in us after its bitfield (and stays connected like every honest peer)
     interested: bool,
+    /// answers the client's handshake only after this delay (a peer that is slow to accept)
+    late_ms: u64,
 }
 
 fn msg(id: u8, payload: &[u8]) -> Vec<u8> {
@@ -117,6 +119,9 @@ fn serve_conn(
             Err(_) if !stop.load(Ordering::SeqCst) => continue,
             Err(_) => return,
         }
+    }
+    if plan.late_ms > 0 {
+        std::thread::sleep(std::time::Duration::from_millis(plan.late_ms));
     }
     let mut reply = vec![19u8];
     reply.extend_from_slice(b"BitTorrent protocol");
@@ -268,8 +273,12 @@ pub fn child(seed: u64, pl: usize, lens: &str, honest: usize, droppers: usize, m
     //       2/3 = the same with every piece at exactly one peer and the first peer slow,
     //       4 = every peer has everything; the first one chokes us after its first block for 150 ms (then as 0)
     //       5 = a crowd of leechers: every piece at exactly one peer, every peer interested in us, everybody stays
+    //       6 = a slow seeder and late, fast twins: the first peer has everything and answers slowly, every other peer has
+    //           exactly one piece, answers at once but is slow to accept the connection; the last piece is at the seeder only;
+    //           everybody stays (the seeder loses the race for the piece it was asked first and must go on with another)
     let crowd = mode == 5;
-    let stay = mode == 1 || mode == 3 || crowd;
+    let twin = mode == 6;
+    let stay = mode == 1 || mode == 3 || crowd || twin;
     let disjoint = mode == 2 || mode == 3 || crowd;
     let choke_race = mode == 4;
     let chokes = seed % 3 == 0;
@@ -301,6 +310,13 @@ pub fn child(seed: u64, pl: usize, lens: &str, honest: usize, droppers: usize, m
     let mut plans: Vec<PeerPlan> = vec![];
     let mut own: Vec<Vec<bool>> = vec![vec![false; npieces]; honest];
     for i in 0..npieces {
+        if twin {
+            own[0][i] = true;
+            if i + 1 < honest && i + 1 < npieces {
+                own[i + 1][i] = true;
+            }
+            continue;
+        }
         if disjoint {
             own[i % honest][i] = true;
             continue;
@@ -319,12 +335,12 @@ pub fn child(seed: u64, pl: usize, lens: &str, honest: usize, droppers: usize, m
         }
     }
     for h in 0..honest {
-        let slow_ms = if disjoint && !crowd && h == 0 { 150 } else { 0 };
-        plans.push(PeerPlan { pieces: own[h].clone(), drop_after: None, drop_mid: false, seed: r.next(), slow_ms, chokes, choke_first: choke_race && h == 0, interested: crowd });
+        let slow_ms = if (disjoint && !crowd || twin) && h == 0 { 150 } else { 0 };
+        plans.push(PeerPlan { pieces: own[h].clone(), drop_after: None, drop_mid: false, seed: r.next(), slow_ms, chokes, choke_first: choke_race && h == 0, interested: crowd, late_ms: if twin && h > 0 { 120 } else { 0 } });
     }
     for _ in 0..droppers {
         let pieces: Vec<bool> = (0..npieces).map(|_| r.coin()).collect();
-        plans.push(PeerPlan { pieces, drop_after: Some(r.below(3) as usize), drop_mid: r.coin(), seed: r.next(), slow_ms: 0, chokes: false, choke_first: false, interested: false });
+        plans.push(PeerPlan { pieces, drop_after: Some(r.below(3) as usize), drop_mid: r.coin(), seed: r.next(), slow_ms: 0, chokes: false, choke_first: false, interested: false, late_ms: 0 });
     }
     r.shuffle(&mut plans);
     let stop = Arc::new(AtomicBool::new(false));
@@ -467,7 +483,15 @@ pub fn gen(r: &mut Rng, n: usize) -> Vec<String> {
     let mut out = vec![];
     for k in 0..n {
         // scenario families that matter for the bookkeeping, then free mixtures
-        let family = k % 6;
+        let family = k % 7;
+        if family == 6 {
+            // a slow seeder and late, fast twins (mode 6): 2..4 pieces of several blocks, one twin per piece but the last
+            let pl = *r.pick(&[20000usize, 40000]);
+            let npieces = 2 + r.below(3) as usize;
+            let total = pl * npieces - r.below(pl as u64 / 2) as usize;
+            out.push(format!("e2e {} {} {} {} 0 6", r.below(1 << 30), pl, total, npieces));
+            continue;
+        }
         if family == 5 {
             // a crowd of leechers: more listed peers than the client connects to at once, every piece at exactly one of
             // them, all of them interested in us and staying connected to the end
